@@ -104,7 +104,21 @@ func (p *provider) GetOrCreate(ctx context.Context, state State, cache bool) (Cu
 				return nil, errors.Errorf("crsr usage violation: concurrent request for id=%d", state.Id)
 			}
 
-			if err := ch.cur.ApplyState(state); err != nil {
+			if ch.cur.state.Query == state.Query && ch.cur.state.Pos != state.Pos {
+				// The request names another position than the one the cached cursor stands at (a client
+				// repeats an earlier request). The cached iterators hold events read ahead at the cursor's own
+				// position (Mixer.st, fiterator.valid, the reused LogEvent) which SetPos does not invalidate,
+				// so the cursor is not re-positioned: it is dropped and a new one is built from the requested
+				// position below, under the same id.
+				ch.cur.close()
+				delete(p.curs, state.Id)
+				ch.cur = nil
+				p.busy = p.busy.TearOff(e)
+				if p.freePoolSz < 1000 {
+					p.free = e.Append(p.free)
+					p.freePoolSz++
+				}
+			} else if err := ch.cur.ApplyState(state); err != nil {
 				p.logger.Warn("Could not apply state ", state, " to the cursor ", ch.cur, ". Will try to create the new one. err=", err)
 				state.Id = 0
 			} else {
